@@ -104,7 +104,7 @@ class Ctx:
             for mod in props:
                 path = os.path.join(LEAN, mod.replace(".", "/") + ".lean")
                 names += theorem_names(path)
-            self._scan_forbidden()
+            self._scan_forbidden(list(props) + ["Driver." + d[4:].upper() for d in drivers])
             audit = os.path.join(LEAN, "Audit", self.id + ".lean")
             os.makedirs(os.path.dirname(audit), exist_ok=True)
             with open(audit, "w") as f:
@@ -157,15 +157,28 @@ class Ctx:
             os.replace(tmp, dst)
         self.extra["facts_sha1"] = hashlib.sha1(new.encode()).hexdigest()
 
-    def _scan_forbidden(self):
-        hits = []
-        for root, _, files in os.walk(LEAN):
-            if ".lake" in root or root.endswith("/Audit"):
+    def _closure(self, modules):
+        """local Lean files transitively imported by the given modules (the property's own proof and model text)"""
+        seen, todo = {}, list(modules)
+        while todo:
+            m = todo.pop()
+            if m in seen:
                 continue
-            for fn in files:
-                if not fn.endswith(".lean"):
-                    continue
-                p = os.path.join(root, fn)
+            path = os.path.join(LEAN, m.replace(".", "/") + ".lean")
+            if not os.path.exists(path):
+                continue
+            seen[m] = path
+            for line in open(path, errors="replace"):
+                mm = re.match(r"^\s*(?:public\s+)?import\s+(\S+)", line)
+                if mm:
+                    todo.append(mm.group(1))
+        return seen
+
+    def _scan_forbidden(self, modules):
+        hits = []
+        files = self._closure(modules)
+        self.extra["lean_files_scanned"] = sorted(os.path.relpath(p, LEAN) for p in files.values())
+        for p in files.values():
                 incomment = 0
                 for i, line in enumerate(open(p, errors="replace"), 1):
                     code = line
